@@ -550,6 +550,11 @@ func (e *Engine) installSpecObjs(pkg *types.Package) {
 	mk("timeBefore", []types.Type{anyT, anyT}, boolT, false)
 	mk("lastRPCErr", nil, types.Universe.Lookup("error").Type(), false)
 	mk("rpcFails", nil, types.Typ[types.Int], false)
+	mk("outLen", nil, types.Typ[types.Int], false)
+	mk("outIsBytes", []types.Type{types.Typ[types.Int]}, boolT, false)
+	mk("outBytes", []types.Type{types.Typ[types.Int]}, types.NewSlice(types.Typ[types.Byte]), false)
+	mk("outObj", []types.Type{types.Typ[types.Int]}, anyT, false)
+	mk("byte1", []types.Type{anyT}, types.NewSlice(types.Typ[types.Byte]), false)
 	if tp := e.pkgs["time"]; tp != nil {
 		if tt := tp.Types.Scope().Lookup("Time"); tt != nil {
 			mk("lastNow", nil, tt.Type(), false)
